@@ -122,6 +122,16 @@ def stepParser (l : Line) : Verdict :=
       let m := s!"{toHexP (stripNull d)} {toHexP q.buf}"
       if m ≠ implS then .diff m else .ok
     | none => .bad "str args"
+  | "dirlist", [_explorer, ents] =>
+    -- every entry of the agent's listing is shown to the operator with its own name and its own kind (file / directory)
+    let want := (ents.splitOn ",").map fun e =>
+      match e.splitOn ":" with
+      | [n, d, _] => n ++ ":" ++ (if d == "1" then "d" else "f")
+      | _ => "?"
+    let got := ((implS.drop 6).toString.splitOn ",")
+    if implS.startsWith "PANIC" then .specFail "C03.panic" s!"the directory listing callback panics: {implS.take 120}"
+    else if got == want then .ok
+    else .specFail "C03.console" s!"directory listing: the agent reported {want}, the operator is shown {got}"
   | "stripnull", [buf] =>
     match ofHex buf with
     | some buf =>
